@@ -1,3 +1,5 @@
 import TableauVerif.Props.C14
 import TableauVerif.Model.Excel
 import TableauVerif.Model.Xerrors
+import TableauVerif.Model.Importer
+import TableauVerif.Props.C01Grid
